@@ -3,7 +3,7 @@
 # Applies a patch to /repo's working tree, runs the quick checks of the given properties, and undoes the patch.
 # Prints one line per property: CAUGHT (exit 1 + VIOLATION), MISSED (exit 0) or ERROR (exit 2).
 set -u
-patch="$1"; shift
+patch="$(realpath "$1")"; shift
 props=(); extra=()
 while [ $# -gt 0 ]; do
     if [ "$1" = "--" ]; then shift; extra=("$@"); break; fi
